@@ -184,7 +184,9 @@ class PendingIf(_PendingCompoundStmt[If]):
         orelse = self.nsp_global.expr_wraper(self.converted_orelse)
         if self.nsp_global.configs.if_style == "short_circuit":
             if len(self.converted_orelse) > 0:
-                body_or_true = BoolOp(op=Or(), values=[body, Constant(value=1)])
+                # a non-empty tuple is true whatever the body evaluates to,
+                # and the value of the body is not asked for its truth value
+                body_or_true = Tuple(elts=[body], ctx=Load())
                 semi_if = BoolOp(op=And(), values=[test, body_or_true])
                 return [BoolOp(op=Or(), values=[semi_if, orelse])]
             else:
